@@ -1236,6 +1236,9 @@ impl FatVolume {
                 }
                 Err(Error::EndOfFile) => {
                     self.update_fat(block_cache, next, ClusterId::EMPTY)?;
+                    if let Some(ref mut number_free_cluster) = self.free_clusters_count {
+                        *number_free_cluster += 1;
+                    };
                     break;
                 }
                 Err(e) => return Err(e),
